@@ -1004,12 +1004,21 @@ def _replace_unbound_list_elements(node: Any, prog: Dict[str, Any]) -> Any:
     return out
 
 
+def _ast_group(trace: Dict[str, Any], i: int) -> List[int]:
+    """Programs built from the same Environment / AST object as program i (reuse_of chains)."""
+    root = trace["programs"][i].get("reuse_of", i)
+    return [j for j, p in enumerate(trace["programs"]) if j == root or p.get("reuse_of") == root]
+
+
 def _cf_unbound_list_elements(trace: Dict[str, Any], i: int) -> Optional[Dict[str, Any]]:
     prog = trace["programs"][i]
     if not _unbound_list_elements(prog["ast"], prog):
         return None
-    cf_prog = dict(prog, ast=_replace_unbound_list_elements(prog["ast"], prog))
-    return dict(trace, programs=trace["programs"][:i] + [cf_prog] + trace["programs"][i + 1:])
+    # the AST object is shared by the whole group: replace the construct in all of them
+    group = _ast_group(trace, i)
+    progs = [dict(p, ast=_replace_unbound_list_elements(p["ast"], prog)) if j in group else p
+             for j, p in enumerate(trace["programs"])]
+    return dict(trace, programs=progs)
 
 
 def _cf_celpy_visible(trace: Dict[str, Any], i: int) -> Optional[Dict[str, Any]]:
